@@ -64,3 +64,68 @@ def canon_cells_list(reply):
 
 def reply_fmt_list(fs):
     return "ok [" + " ".join(wire.enc_fmt(f) for f in fs) + "]"
+
+
+# ------------------------------------------------------------------------------------------------
+# FmtStr values built through the PUBLIC API by random straight-line programs with observations
+# (str/len/.s/.width) interleaved, so that memo fields are filled before and after values are combined.
+# ------------------------------------------------------------------------------------------------
+SPECS = [dict(), dict(fg="red"), dict(bg="blue", bold=True), dict(fg=32, underline=True), dict(bold=False, fg="cyan"),
+         dict(invert=True), dict(bg=41, italic=True, dark=True), dict(blink=True)]
+TEXTS = ["", "a", "ab", "hello", "x y", "a\nb", "\t", "Ｅ", "é", "abc def"]
+
+
+def api_pool(rng, steps=12, texts=TEXTS, observe=True):
+    """-> (pool of real FmtStr objects, program log)"""
+    from curtsies.formatstring import fmtstr as mk
+    pool, log = [], []
+
+    def obs():
+        if not observe or not pool:
+            return
+        f = rng.choice(pool)
+        k = rng.choice(("str", "len", "s", "width", "none", "none"))
+        try:
+            {"str": lambda: str(f), "len": lambda: len(f), "s": lambda: f.s, "width": lambda: f.width, "none": lambda: None}[k]()
+        except ValueError:
+            pass
+        log.append(("obs", k))
+    for _ in range(3):
+        pool.append(mk(rng.choice(texts), **rng.choice(SPECS)))
+    for _ in range(steps):
+        obs()
+        op = rng.choice(("add", "addstr", "raddstr", "mul", "slice", "join", "splice", "cwna", "rewrap", "append", "copy"))
+        a, b = rng.choice(pool), rng.choice(pool)
+        try:
+            if op == "add":
+                r = a + b
+            elif op == "addstr":
+                r = a + rng.choice(texts)
+            elif op == "raddstr":
+                r = rng.choice(texts) + a
+            elif op == "mul":
+                r = a * rng.randint(0, 3)
+            elif op == "slice":
+                n = len(a)
+                r = a[rng.randint(-n - 1, n + 1):rng.randint(-n - 1, n + 1)]
+            elif op == "join":
+                r = a.join([rng.choice(pool + [rng.choice(texts)]) for _ in range(rng.randint(0, 3))])
+            elif op == "splice":
+                n = len(a)
+                s = rng.randint(0, n + 1)
+                r = a.splice(rng.choice([b, rng.choice(texts)]), s, rng.choice([None, s, s + 1, n]) if True else None)
+            elif op == "cwna":
+                r = a.copy_with_new_atts(**{k: (v if not isinstance(v, str) else {"red": 31, "blue": 44, "cyan": 36}[v])
+                                            for k, v in rng.choice(SPECS).items()})
+            elif op == "rewrap":
+                r = mk(a, **rng.choice(SPECS))
+            elif op == "append":
+                r = a.append(rng.choice([b, rng.choice(texts)]))
+            else:
+                r = a.copy()
+        except (ValueError, IndexError, AssertionError):
+            continue
+        log.append((op,))
+        pool.append(r)
+        obs()
+    return pool, log
